@@ -168,7 +168,7 @@ class StrCat(AVal):
         return [p for p in self.parts if not isinstance(p, K)]
 
     def certainly_nonempty(self) -> bool:
-        return any(isinstance(p, K) for p in self.parts)
+        return any(isinstance(p, K) or getattr(p, 'truth', None) is True for p in self.parts)
 
     def key(self, known_empty=()):
         """comparable normal form; unknown strings known to be empty on the path are dropped"""
@@ -177,6 +177,24 @@ class StrCat(AVal):
 
     def __repr__(self):
         return 'StrCat(%s)' % ' + '.join(repr(p.v) if isinstance(p, K) else getattr(p, 'tag', '?') for p in self.parts)
+
+
+class IterVal(AVal):
+    """an *iterator* over a literal sequence: every traversal continues where the one before it stopped (the state -
+    how many elements have been taken - lives in the heap of the path, key ('iter', iid))"""
+    _next_id = 0
+
+    def __init__(self, items: List[AVal]):
+        self.items = items
+        IterVal._next_id += 1
+        self.iid = IterVal._next_id
+
+    def taken(self, st) -> int:
+        v = st.heap.get(('iter', self.iid))
+        return v.v if isinstance(v, K) else 0
+
+    def __repr__(self):
+        return 'IterVal(%d items)' % len(self.items)
 
 
 def as_strcat(v) -> Optional['StrCat']:
@@ -606,6 +624,9 @@ class Interp:
             if kind == 'raise':
                 outs.append(Outcome(RAISE, itv, s1))
                 continue
+            if isinstance(itv, IterVal):
+                outs.extend(self._unroll(s, itv.items[itv.taken(s1):], s1, itv))
+                continue
             items = self.concrete_items(itv)
             if items is not None:
                 outs.extend(self._unroll(s, items, s1))
@@ -622,12 +643,14 @@ class Interp:
             return [wrap(x) for x in sorted(v.v, key=repr)]
         return None
 
-    def _unroll(self, s, items, st) -> List[Outcome]:
+    def _unroll(self, s, items, st, iterator: Optional['IterVal'] = None) -> List[Outcome]:
         cur = [st]
         final = []
         for it in items:
             nxt = []
             for s1 in cur:
+                if iterator is not None:
+                    s1.heap[('iter', iterator.iid)] = K(iterator.taken(s1) + 1)
                 self.assign_target(s.target, it, s1)
                 for o in self.exec_block(s.body, s1):
                     if o.kind in (NORMAL, CONTINUE):
@@ -1450,6 +1473,11 @@ class Interp:
             if name == 'len':
                 return [('val', K(len(items)), st)]
             return [('val', ListVal(list(items), name == 'tuple'), st)]
+        if isinstance(cv, Sym) and cv.origin and cv.origin[0] == 'attr' and isinstance(cv.origin[1], StrCat) \
+                and cv.origin[2] in ('isspace', 'lstrip', 'rstrip', 'strip'):
+            r = self._strcat_method(cv.origin[1], cv.origin[2], args, node, st)
+            if r is not None:
+                return r
         # '<sep>'.join(<literal sequence of symbolic strings>)
         sep = None
         if isinstance(cv, K) and type(cv.v).__name__ == '_BoundPy' and cv.v.attr == 'join' and isinstance(cv.v.base, str):
@@ -1700,20 +1728,176 @@ class Interp:
             return self._fork2(st, test, rt, rf)
         return self._fork2(st, test)
 
+    # ---- white space of symbolic strings: a symbol is *blank* (empty or white space only) or not
+    @staticmethod
+    def _blank_facts(st: State) -> dict:
+        out = {}
+        for e in st.trace:
+            if e.kind == 'str-blank':
+                for x in e.data:
+                    out[id(x)] = True
+            elif e.kind == 'str-nonblank':
+                for x in e.data:
+                    out[id(x)] = False
+            elif e.kind == 'str-empty':
+                for x in e.data:
+                    out[id(x)] = True
+        return out
+
+    def _stripped(self, sym, op: str) -> 'Sym':
+        """the symbol for <op>(sym) of a symbol that is not blank: not blank and not empty either; one symbol per
+        (symbol, set of ends stripped)"""
+        base = getattr(sym, 'strip_base', sym)
+        ends = frozenset(getattr(sym, 'strip_ends', frozenset()) | {op})
+        cache = self.__dict__.setdefault('_stripped_syms', {})
+        key = (id(base), ends)
+        if key not in cache:
+            d = Sym('%s(%s)' % ('strip' if len(ends) == 2 else next(iter(ends)) + 'strip', getattr(base, 'tag', '?')),
+                    origin=('strop', ends, base), truth=True, nullness=False)
+            d.strip_base = base
+            d.strip_ends = ends
+            cache[key] = d
+        return cache[key]
+
+    def _fork_blank(self, sym, st: State, node):
+        """[(is blank, state)] of an unknown part"""
+        if getattr(sym, 'strip_base', None) is not None:
+            return [(False, st)]
+        fact = self._blank_facts(st).get(id(sym))
+        if fact is not None:
+            return [(fact, st)]
+        if self._emptiness_facts(st).get(id(sym)) is True:
+            return [(True, st)]
+
+        def rb(s_):
+            s_.trace.append(Event('str-blank', [sym], node, s_.frame.func))
+
+        def rn(s_):
+            s_.trace.append(Event('str-nonblank', [sym], node, s_.frame.func))
+            s_.trace.append(Event('str-nonempty', [sym], node, s_.frame.func))
+
+        return self._fork2(st, node, rb, rn)
+
+    def _strcat_method(self, sc: 'StrCat', meth: str, args, node, st: State):
+        """isspace() / lstrip() / rstrip() / strip() of a symbolic text; rstrip / lstrip / strip of given characters
+        only when every one of them is white space and the constant parts decide"""
+        chars = None
+        if args:
+            if len(args) != 1 or not isinstance(args[0], K) or not isinstance(args[0].v, str) or meth == 'isspace':
+                return None
+            chars = args[0].v
+            if chars.strip() != '':
+                return None
+        if meth == 'isspace':
+            if any(isinstance(p_, K) and not p_.v.isspace() for p_ in sc.parts):
+                return [('val', K(False), st)]
+            results = []
+            pending = [(st, 0)]
+            while pending:
+                s_, i = pending.pop()
+                if i == len(sc.parts):
+                    # every part is blank: white space exactly when something is there
+                    if any(isinstance(p_, K) for p_ in sc.parts):
+                        results.append(('val', K(True), s_))
+                    else:
+                        for ne, s2 in self._strcat_nonempty(sc, s_, node):
+                            results.append(('val', K(ne), s2))
+                    continue
+                p_ = sc.parts[i]
+                if isinstance(p_, K):
+                    pending.append((s_, i + 1))
+                    continue
+                for blank, s2 in self._fork_blank(p_, s_, node):
+                    if blank:
+                        pending.append((s2, i + 1))
+                    else:
+                        results.append(('val', K(False), s2))
+            return results
+
+        def strip_end(parts, s_, left: bool):
+            """[(parts, state)] after stripping one end"""
+            out = []
+            work = [(list(parts), s_)]
+            while work:
+                ps, s1 = work.pop()
+                if not ps:
+                    out.append((ps, s1))
+                    continue
+                t = ps[0] if left else ps[-1]
+                rest = ps[1:] if left else ps[:-1]
+                if isinstance(t, K):
+                    if chars is None:
+                        v_ = t.v.lstrip() if left else t.v.rstrip()
+                    else:
+                        v_ = t.v.lstrip(chars) if left else t.v.rstrip(chars)
+                    if v_:
+                        out.append(([K(v_)] + rest if left else rest + [K(v_)], s1))
+                    else:
+                        work.append((rest, s1))
+                    continue
+                if chars is not None:
+                    # stripping given characters off an unknown part: only decided when the part is known empty
+                    if self._emptiness_facts(s1).get(id(t)) is True:
+                        work.append((rest, s1))
+                        continue
+                    return None
+                for blank, s2 in self._fork_blank(t, s1, node):
+                    if blank:
+                        work.append((list(rest), s2))
+                    else:
+                        d = self._stripped(t, 'l' if left else 'r')
+                        out.append(([d] + list(rest) if left else list(rest) + [d], s2))
+            return out
+
+        states = [(list(sc.parts), st)]
+        for left in ((True,) if meth == 'lstrip' else (False,) if meth == 'rstrip' else (True, False)):
+            nxt = []
+            for ps, s1 in states:
+                r = strip_end(ps, s1, left)
+                if r is None:
+                    return None
+                nxt.extend(r)
+            states = nxt
+        return [('val', StrCat(ps) if ps else K(''), s1) for ps, s1 in states]
+
+    @staticmethod
+    def _emptiness_facts(st: State) -> dict:
+        """id(symbol) -> True (known empty) / False (known non-empty), from the refinements recorded on this path"""
+        out = {}
+        for e in st.trace:
+            if e.kind == 'str-empty':
+                for x in e.data:
+                    out[id(x)] = True
+            elif e.kind == 'str-nonempty':
+                for x in e.data:
+                    out[id(x)] = False
+        return out
+
     def _strcat_nonempty(self, v: 'StrCat', st: State, test, negate: bool = False):
         """[(truth, state)] of `<v> is a non-empty string`; on the empty branch every unknown part is known empty"""
         if v.certainly_nonempty():
             return [(not negate, st)]
         if not v.parts:
             return [(negate, st)]
+        # what earlier tests on this path have established about the unknown parts
+        known = self._emptiness_facts(st)
+        rest = [p_ for p_ in v.parts if known.get(id(p_)) is not True]
+        if any(known.get(id(p_)) is False for p_ in rest):
+            return [(not negate, st)]
+        if not rest:
+            return [(negate, st)]
 
         def r_empty(s_):
             s_.trace.append(Event('str-empty', list(v.unknowns()), test, s_.frame.func))
             s_.replace_value(v, K(''))
 
+        def r_nonempty(s_):
+            if len(v.parts) == 1:
+                s_.trace.append(Event('str-nonempty', list(v.unknowns()), test, s_.frame.func))
+
         if negate:
-            return self._fork2(st, test, r_empty, None)
-        return self._fork2(st, test, None, r_empty)
+            return self._fork2(st, test, r_empty, r_nonempty)
+        return self._fork2(st, test, r_nonempty, r_empty)
 
     def nullness(self, v: AVal) -> Optional[bool]:
         """True: is None, False: is not None, None: unknown"""
@@ -1751,6 +1935,26 @@ class Interp:
                     if isinstance(a, StrCat) and isinstance(b, K) and b.v == '':
                         # a == ''  <=>  a is empty
                         return self._strcat_nonempty(a, st, test, negate=not neg)
+                    if isinstance(a, StrCat) and isinstance(b, K) and isinstance(b.v, str) and len(a.parts) == 2 \
+                            and not isinstance(a.parts[0], K) and isinstance(a.parts[1], K):
+                        # <unknown> + 't' == 'c'
+                        sym, t = a.parts[0], a.parts[1].v
+                        if not b.v.endswith(t):
+                            return [(neg, st)]
+                        if b.v == t:
+                            # equal exactly when the unknown part is empty
+                            fact = self._emptiness_facts(st).get(id(sym))
+                            if fact is not None:
+                                return [(fact != neg, st)]
+                            def r_empty(s_, sym=sym):
+                                s_.trace.append(Event('str-empty', [sym], test, s_.frame.func))
+
+                            def r_nonempty(s_, sym=sym):
+                                s_.trace.append(Event('str-nonempty', [sym], test, s_.frame.func))
+
+                            if neg:
+                                return self._fork2(st, test, r_nonempty, r_empty)
+                            return self._fork2(st, test, r_empty, r_nonempty)
             if isinstance(l, K) and isinstance(r, K):
                 eq = self.const_equal(l.v, r.v, isinstance(op, (ast.Is, ast.IsNot)), st)
                 if eq is not None:
